@@ -16,7 +16,7 @@ MUST_REACH = ["delivered", "end-of-stream", "blocked-receiver-woken-by-last-send
 def units(tier):
     quick = tier == "quick"
     us = []
-    B = 100 if quick else 1500
+    B = 240 if quick else 1500
 
     def add(parties, buf, **p):
         p.setdefault("T", 1)
